@@ -28,6 +28,26 @@ CHECKS = {
   "Well-formed files using each unsupported feature (16 check IDs, delta/BCJ chains written by liblzma, unknown filter IDs, every reserved bit, concatenated streams, stream padding) must be refused; liblzma confirms the files are well-formed.",
   "Zero-block SHA-256 file: either verdict accepted (nothing to verify).",
   TECH + ": negative oracle over enumerated feature families"),
+ "C04": ("exploration", "§4 C04",
+  "Every encoder (lzma x 3 options, lzma2, xz) over boundary lengths, 7 content kinds and 5 input fragmentations, plus a hook-guided search for carry / pending-0xFF paths in the range encoder; each output must decode back with lzma-rs, pass the reference decoder / strict LZMA2 reader / strict XZ parser (header fields, exact payload length) and decode with liblzma.",
+  "Trusted: reference decoder, strict parsers (self-checked) and system liblzma as independent conforming decoders.",
+  TECH + ": round-trip + independent-decoder oracle, RcShift hook feedback"),
+ "C05": ("exploration", "§4 C05",
+  "Stream histories vs the one-shot decoder on the same bytes: all single cuts and all pairs for inputs <= 64 bytes, every single cut for inputs <= 700 bytes (thorough 4 KiB), 8 chunking pattern families; inputs of 8 kinds incl. near-maximal (17-18 byte) symbols; snapshot hook shows the carry-over buffer at every fill level 0-20.",
+  "Oracle is lzma-rs' own one-shot decoder (equivalence property), pinned by C01/C08.",
+  TECH + ": differential history monitor with exhaustive per-input cut enumeration"),
+ "C10": ("exploration", "§4 C10",
+  "Unlimited run measures the window actually needed (WinGrow hook); ten limit values around need and dict through one-shot / Stream / raw decoder: sufficient limits reproduce the unlimited result, insufficient ones fail, the hook never reports a buffer above the limit; counting allocator as coarse second witness.",
+  "need is measured by the hook; allocator bound deliberately loose.",
+  TECH + ": invariant hook on window growth + differential run + counting allocator"),
+ "C15": ("exploration", "§4 C15",
+  "Per valid stream with allow_incomplete: a snapshot after every input length (1-byte writes) and three more chunkings check produced >= D(n-64), monotonicity and the prefix relation; finish after every prefix (short streams) / sampled prefixes under four chunkings must succeed and return a long-enough prefix. D from the reference decoder's per-symbol table.",
+  "produced-so-far read through the snapshot hook; append-only sink.",
+  TECH + ": online trace checker over snapshot history against reference per-symbol table"),
+ "C16": ("exploration", "§4 C16",
+  "Random call histories (write/empty write/flush/get_output/finish) over six scenarios continued up to 50 calls past the latch event; an online 3-state latch checker judges each call at the API boundary; snapshot hook confirms the internal phase.",
+  "The statement is the oracle.",
+  TECH + ": online latch-automaton checker over recorded call histories"),
  "C08": ("exploration", "§4 C08",
   "Table-driven: option x header-field x provided-size x stream-shape cells, each decided by the reference decoder run with the size in effect, executed through the one-shot API and through Stream; header byte consumption observed on the reader.",
   "Trusted: reference decoder. The documented clean-EOF leniency is accepted either way.",
